@@ -156,12 +156,66 @@ def _sink(stmts, env):
     return out
 
 
+def _test_feeding(fn_node) -> set:
+    """Locals whose value ends up in an if / while test (directly, or through a plain assignment to such a local)."""
+    out = {x.id for n in ast.walk(fn_node) if isinstance(n, (ast.If, ast.While, ast.IfExp)) for x in ast.walk(n.test) if isinstance(x, ast.Name)}
+    changed = True
+    while changed:
+        changed = False
+        for n in ast.walk(fn_node):
+            if isinstance(n, ast.Assign) and len(n.targets) == 1 and isinstance(n.targets[0], ast.Name) and n.targets[0].id in out:
+                new = {x.id for x in ast.walk(n.value) if isinstance(x, ast.Name)} - out
+                if new:
+                    out |= new
+                    changed = True
+    return out
+
+
+def _plain_assign(s):
+    if isinstance(s, ast.Assign) and len(s.targets) == 1 and isinstance(s.targets[0], ast.Name):
+        return s.targets[0].id
+    return None
+
+
+def _merge_decisions(stmts, feeding):
+    """A condition computed in branches and tested later (`if a: ok = False` / `else: ok = f(x)` / `if not ok:` — what the
+    expansion of a bool-returning helper looks like) becomes one conditional expression `ok = False if a else f(x)`, so that
+    the later test can be read as a formula over the original conditions.  Only for locals that feed a test."""
+    out = []
+    for s in stmts:
+        for fld in ("body", "orelse", "finalbody"):
+            blk = getattr(s, fld, None)
+            if isinstance(blk, list) and blk and isinstance(blk[0], ast.stmt):
+                setattr(s, fld, _merge_decisions(blk, feeding))
+        for h in getattr(s, "handlers", []) or []:
+            h.body = _merge_decisions(h.body, feeding)
+        if isinstance(s, ast.If) and len(s.body) == 1 and _plain_assign(s.body[0]) in feeding:
+            nm = _plain_assign(s.body[0])
+            used = any(isinstance(x, ast.Name) and x.id == nm for x in ast.walk(s.test))
+            prev = out[-1] if out else None
+            other = None
+            if len(s.orelse) == 1 and _plain_assign(s.orelse[0]) == nm:
+                other = s.orelse[0].value
+            elif not s.orelse and prev is not None and _plain_assign(prev) == nm and not used:
+                other = prev.value  # `ok = v0` / `if a: ok = v1`
+                if not (nm.startswith("_ret__i") and isinstance(other, ast.Constant) and other.value is None):
+                    out.pop()
+                else:
+                    other = None
+            if other is not None and not used:
+                val = ast.copy_location(ast.IfExp(test=s.test, body=s.body[0].value, orelse=other), s)
+                s = ast.copy_location(ast.Assign(targets=[ast.Name(id=nm, ctx=ast.Store())], value=val, lineno=s.lineno), s)
+        out.append(s)
+    return out
+
+
 def prepare(fn_node):
-    """(copy of the function, its alias map): conditional returns lowered, single-exit results returned where they are
-    decided, tests alias-expanded."""
+    """(copy of the function, its alias map): conditions decided in branches merged into conditional expressions, conditional
+    returns lowered, single-exit results returned where they are decided, tests alias-expanded."""
     node = copy.deepcopy(fn_node)
-    node.body = [_Lower().visit(s) for s in node.body]
+    node.body = _merge_decisions(node.body, _test_feeding(node))
     node.body = _sink(node.body, {})
+    node.body = [_Lower().visit(s) for s in node.body]
     defs = local_defs(node)
     for n in ast.walk(node):
         if isinstance(n, (ast.If, ast.While)):
@@ -224,6 +278,17 @@ def clauses(test, pol: bool, atoms: Atoms, limit: int = 64) -> frozenset:
         return clauses(test.operand, not pol, atoms, limit)
     if isinstance(test, ast.UnaryOp) and isinstance(test.op, ast.Invert) and isinstance(test.operand, ast.Call) and is_reducer(test.operand):
         return clauses(test.operand, not pol, atoms, limit)  # ~np.any(x): numpy bools negate logically
+    if isinstance(test, ast.Constant):
+        # a true condition constrains nothing (no clause); a false one is the empty clause (nothing satisfies it)
+        return frozenset() if bool(test.value) == pol else frozenset([frozenset()])
+    if isinstance(test, ast.IfExp):
+        # (a if c else b)  ==  (not c or a) and (c or b)
+        c, a, b = test.test, test.body, test.orelse
+        if not pol:
+            a, b = (ast.copy_location(ast.UnaryOp(op=ast.Not(), operand=v), v) for v in (a, b))
+        both = ast.BoolOp(op=ast.And(), values=[ast.BoolOp(op=ast.Or(), values=[ast.copy_location(ast.UnaryOp(op=ast.Not(), operand=c), c), a]),
+                                                ast.BoolOp(op=ast.Or(), values=[c, b])])
+        return clauses(ast.copy_location(both, test), True, atoms, limit)
     if isinstance(test, ast.BoolOp):
         parts = [clauses(v, pol, atoms, limit) for v in test.values]
         if isinstance(test.op, ast.And) == pol:
@@ -271,6 +336,10 @@ class PathFacts:
     def _join(self, a, b):
         """Clauses of (a OR b): the common clauses, and the pairwise unions of the others (so that `X is None` on one way
         in and `not f(X)` on the other still gives the clause {X is None, not f(X)}); small clauses only."""
+        if frozenset() in a:
+            return b
+        if frozenset() in b:
+            return a
         common = a & b
         self._joins += 1
         if a == b or self._joins > 4000:
@@ -319,6 +388,48 @@ class PathFacts:
 
     def literal(self, lit):
         return self.atoms.node[lit[0]], lit[1]
+
+    def around(self, expr) -> frozenset:
+        """Clauses holding whenever the expression `expr` (a node of the prepared function) is evaluated."""
+        if not hasattr(self, "_where"):
+            self._where = {}
+
+            def visit(x, n, extra):
+                self._where.setdefault(id(x), (n, extra))
+                if isinstance(x, ast.IfExp):  # the arms of a conditional expression are evaluated under its test
+                    visit(x.test, n, extra)
+                    visit(x.body, n, extra + ((x.test, True),))
+                    visit(x.orelse, n, extra + ((x.test, False),))
+                    return
+                for ch in ast.iter_child_nodes(x):
+                    visit(ch, n, extra)
+
+            for n in self.g.nodes:
+                src = n.ast
+                if n.kind == "with":
+                    src = [it.context_expr for it in n.ast.items]
+                if src is None:
+                    continue
+                for part in (src if isinstance(src, list) else [src]):
+                    visit(part, n, ())
+        n, extra = self._where.get(id(expr), (None, ()))
+        facts = self.at(n) if n is not None else frozenset()
+        for test, pol in extra:
+            facts = facts | clauses(expanded(test, self.node, self.defs), pol, self.atoms)
+        return facts
+
+    def known_truth(self, facts, name):
+        """True / False when `facts` fix the truth value of the local or parameter `name`, "dead" when they fix both (the place
+        cannot be reached), else None."""
+        got = set()
+        for clause in facts:
+            if len(clause) == 1:
+                node, pol = self.literal(next(iter(clause)))
+                if isinstance(node, ast.Name) and node.id == name:
+                    got.add(pol)
+        if len(got) == 2 or frozenset() in facts:
+            return "dead"
+        return got.pop() if got else None
 
 
 # ---------------------------------------------------------------------------------------------- value flow
